@@ -170,7 +170,7 @@ def aggregate(prop, cfg, tier, seed, results, wall, write=True):
                 extra[k] = extra.get(k, 0) + v
             elif isinstance(v, list):
                 extra.setdefault(k, [])
-                extra[k] = (extra[k] + v)[:50]
+                extra[k] = (extra[k] + [x for x in v if x not in extra[k]])[:50]
             else:
                 extra.setdefault(k, v)
 
@@ -261,7 +261,8 @@ def aggregate(prop, cfg, tier, seed, results, wall, write=True):
             "sanitizer": {"build": "asan+ubsan" if cfg["asan"] else "none",
                           "report_blocks": sum(len(r["san_reports"]) for r in results)},
             "tree": repo_root(),
-            "exhaustive": bool(extra.get("exhaustive", False)),
+            "exhaustive": False,
+            "exhaustive_subspaces": extra.get("exhaustive_subspace", []),
         },
         "assumptions": cfg.get("assumptions", []),
         "wall_s": round(wall, 2),
